@@ -129,6 +129,18 @@ theorem C01_pipeline (xs : List Val) (rest : List (Node Part)) (h : ∀ nd ∈ r
   exact execPar_eq_execSeq List.flatten (fun p => by simp) xs xs.length (vecSplit xs)
     (fun k => vecSplit_flatten xs k) rest' hok n
 
+/-- … and for ANY source that meets the source contract `concat (split n) = whole` — in particular the
+    streamed file sources, whose contract is `IB.Io.clone_any_eq_concat_split` (Props/C09: the per-shard
+    reads concatenate to the whole read for every shard size, including zero shards). -/
+theorem C01_pipeline_any_source (w : Part) (len : Nat) (split : Nat → List Part)
+    (hsplit : ∀ k, (split k).flatten = w) (rest : List (Node Part)) (h : ∀ nd ∈ rest, Built nd) (n : Nat) :
+    execPar List.flatten (optimise (.source w len split :: rest)) n
+      = execSeq (optimise (.source w len split :: rest)) := by
+  obtain ⟨rest', hshape, hok⟩ := optimise_source_shape List.flatten w len split rest
+    (fun nd hnd => built_nodeOK (h nd hnd)) (fun nd hnd => built_liftOK (h nd hnd))
+  rw [hshape]
+  exact execPar_eq_execSeq List.flatten (fun p => by simp) w len split hsplit rest' hok n
+
 /-- the same for the literal (un-planned) chain -/
 theorem C01_pipeline_literal (xs : List Val) (rest : List (Node Part)) (h : ∀ nd ∈ rest, Built nd) (n : Nat) :
     execPar List.flatten (vecSource xs :: rest) n = execSeq (vecSource xs :: rest) :=
